@@ -1,13 +1,126 @@
+(* Props/C03.v — C03: the Voronoi generator returns the periodic Voronoi tessellation of its points.
+   PARTIAL, checker-level.  Qhull is not modelled: the theorems below say what the exact predicates mean
+   and what the certificate checkers establish when they answer [true]; the harness runs the extracted
+   checkers on every generated input (certificate built independently of koala) and on koala's lattice.
+   NOT covered by a theorem (S only, exact rational arithmetic in the harness): one plaquette per seed,
+   containment, area sum, two different plaquettes per edge, Lloyd; the post-processing code itself
+   (no VoronoiPost model); geometry fact G3 (empty circumdiscs + side pairing + area = Delaunay, dual = Voronoi). *)
 From Coq Require Import List ZArith Bool Arith QArith.
 From Koala Require Import Model.Lattice Model.Delaunay Proofs.DelaunayFacts.
 Import ListNotations.
 Open Scope Z_scope.
 
-(* algebraic core of "incircle decides the circumdisc": 4 o incircle = R^2-term minus distance-term *)
-Theorem C03_incircle_identity : forall a b c d : pt,
-  4 * orient2d a b c * incircle a b c d =
-  cc_r2num a b c
-  - (2 * orient2d a b c * (fst d - fst a) - fst (cc_off a b c)) * (2 * orient2d a b c * (fst d - fst a) - fst (cc_off a b c))
-  - (2 * orient2d a b c * (snd d - snd a) - snd (cc_off a b c)) * (2 * orient2d a b c * (snd d - snd a) - snd (cc_off a b c)).
-Proof. exact incircle_identity. Qed.
-Print Assumptions C03_incircle_identity.
+(* clause "circumcentres": the in-circle determinant decides the open circumdisc, exactly (over Q) *)
+Theorem C03_incircle_correct : forall a b c d : pt, 0 < orient2d a b c ->
+  (0 < incircle a b c d <->
+   (qdist2 (qpt d) (circumcentre a b c) < qdist2 (qpt a) (circumcentre a b c))%Q).
+Proof. exact incircle_correct. Qed.
+Print Assumptions C03_incircle_correct.
+
+(* clause "circumcentres": [circumcentre] is equidistant from the three corners *)
+Theorem C03_circumcentre_equidistant : forall a b c : pt, 0 < orient2d a b c ->
+  (qdist2 (qpt b) (circumcentre a b c) == qdist2 (qpt a) (circumcentre a b c))%Q /\
+  (qdist2 (qpt c) (circumcentre a b c) == qdist2 (qpt a) (circumcentre a b c))%Q.
+Proof. exact circumcentre_equidistant. Qed.
+Print Assumptions C03_circumcentre_equidistant.
+
+(* clause "periodic Delaunay triangles": a validated certificate consists of positively oriented
+   triangles of seeds of [0,S)^2 whose open circumdisc contains NO periodic image of ANY seed (all
+   integer offsets, not only a window), glued side to side (every directed side occurs once and its
+   reverse occurs too), 2N triangles, total area = area of the torus *)
+Theorem C03_check_delaunay_sound : forall S w pts C,
+  check_delaunay S w pts C = true ->
+  0 < S /\
+  (forall p, In p pts -> 0 <= fst p < S /\ 0 <= snd p < S) /\
+  (forall t bx, In (t, bx) C -> tri_delaunay S pts t) /\
+  NoDup (all_sides C) /\
+  (forall k, In k (all_sides C) -> In (skey_rev k) (all_sides C)) /\
+  length C = (2 * length pts)%nat /\
+  area2_sum S pts C = 2 * S * S.
+Proof. exact check_delaunay_sound. Qed.
+Print Assumptions C03_check_delaunay_sound.
+
+(* clauses "vertices are the circumcentres / centroids of the triangles in (0,1]^2", "edges join exactly
+   the pairs of triangles sharing a side, crossing = cell offset", "trivalent": the lattice's vertices are
+   in bijection with the certificate's triangles, each sitting (within tolS) at its triangle's reference
+   point, which lies in (0,S]^2; every edge is dual to a side shared by the triangles of its ends with
+   translation = crossing; the 2E edge ends use every one of the 3|C| (triangle, side) slots exactly once *)
+Theorem C03_check_dual_sound : forall S tolS shift pts C L vt,
+  check_dual S tolS shift pts C L vt = true ->
+  wf_lattice L = true /\ scale L = S /\
+  length vt = nV L /\ nV L = length C /\ NoDup vt /\ (forall i, In i vt -> (i < length C)%nat) /\
+  (forall t bx, In (t, bx) C ->
+     0 < orient2d (site_pos S pts (t_a t)) (site_pos S pts (t_b t)) (site_pos S pts (t_c t)) /\
+     in_cell_P S (tri_ref S shift pts t)) /\
+  (forall v, (v < nV L)%nat -> pos_close_P tolS (pos_at L v) (tri_ref S shift pts (tri_of C vt v))) /\
+  (2 * nE L = 3 * length C)%nat /\
+  exists us, used_sides C vt (edges L) (crossing L) = Some us /\ NoDup us /\
+    (forall e, (e < nE L)%nat ->
+       exists s s', (s < 3)%nat /\ (s' < 3)%nat /\
+         nth (2 * e) us (0, 0)%nat = (nth (fst (edge_at L e)) vt 0%nat, s) /\
+         nth (2 * e + 1) us (0, 0)%nat = (nth (snd (edge_at L e)) vt 0%nat, s') /\
+         side_shared (tri_of C vt (fst (edge_at L e))) (tri_of C vt (snd (edge_at L e))) (cross_at L e) s s') /\
+    (forall t s, (t < length C)%nat -> (s < 3)%nat -> In (t, s) us).
+Proof. exact check_dual_sound. Qed.
+Print Assumptions C03_check_dual_sound.
+
+(* [side_shared] is geometric: the two sites coincide after translating by S * crossing *)
+Theorem C03_site_shift_pos : forall S pts p p' cr, site_shift p p' cr ->
+  site_pos S pts p = (fst (site_pos S pts p') + S * fst cr, snd (site_pos S pts p') + S * snd cr).
+Proof. exact site_shift_pos. Qed.
+Print Assumptions C03_site_shift_pos.
+
+(* clause "2N vertices and 3N edges" and the tiling arithmetic V - E + F = 0 with F = N *)
+Theorem C03_dual_counts : forall S w tolS shift pts C L vt,
+  check_delaunay S w pts C = true -> check_dual S tolS shift pts C L vt = true ->
+  nV L = (2 * length pts)%nat /\ nE L = (3 * length pts)%nat /\
+  Z.of_nat (nV L) - Z.of_nat (nE L) + Z.of_nat (length pts) = 0.
+Proof. exact dual_counts. Qed.
+Print Assumptions C03_dual_counts.
+
+(* ---- non-vacuity: koala's actual output for 4 seeds on the 1/64 grid (float64 positions as exact
+   dyadics), plain and shifted: both checkers accept *)
+Definition ex_plain_S : Z := 36028797018963968.
+Definition ex_plain_pts : list pt := [(20829148276588544, 5066549580791808); (6192449487634432, 29836347531329536); (2814749767106560, 15199648742375424); (26458647810801664, 24206847997116416)].
+Definition ex_plain_C : list (tri * box) := [
+  (((0%nat, (0, 0)), (2%nat, (0, 0)), (1%nat, (0, (-1)))), ((-2710109955677076), 20830188600819379, (-6547111804267102), 16993186752229353));
+  (((3%nat, (0, 0)), (0%nat, (0, 0)), (2%nat, (1, 0))), (17055859252498881, 39001060338405684, 2374521260189776, 24319722346096579));
+  (((3%nat, (0, 0)), (2%nat, (0, 0)), (0%nat, (0, 0))), (2691973199423480, 28655637456074941, 3999011577083056, 29962675833734517));
+  (((0%nat, (0, 0)), (1%nat, (1, (-1))), (2%nat, (1, 0))), (20722520450340088, 46511731992715217, (-9482890947733933), 16306320594641196));
+  (((1%nat, (1, 0)), (3%nat, (0, 0)), (2%nat, (1, 0))), (26442838853473187, 44630435505418682, 14577067380161701, 32764664032107196));
+  (((3%nat, (0, 0)), (1%nat, (1, 0)), (0%nat, (0, 1))), (19315637155049199, 43495204456469102, 23148487901747493, 47328055203167396));
+  (((1%nat, (0, 0)), (3%nat, (0, 0)), (0%nat, (0, 1))), (6170367126704166, 28433821846867095, 19405435419384807, 41668890139547736));
+  (((3%nat, (0, 0)), (1%nat, (0, 0)), (2%nat, (0, 0))), (1774679355209282, 27100809821887091, 7562437912472570, 32888568379150379))].
+Definition ex_plain_L : lattice := mkLattice 36028797018963968
+  [(14437744588548186, 20225503145811472); (17302094486785630, 30537162779466272); (31405420805759152, 35238271552457444); (35536637179445936, 23670865706134448); (33617126221527652, 3411714823453631); (28028459795452284, 13347121803143178); (9060039322571150, 5223037473981126); (15673805327749212, 16980843705408786)]
+  [(1, 2)%nat; (2, 3)%nat; (3, 5)%nat; (4, 5)%nat; (1, 0)%nat; (0, 7)%nat; (5, 7)%nat; (6, 7)%nat; (1, 6)%nat; (2, 4)%nat; (3, 0)%nat; (6, 4)%nat]
+  [(0, 0); (0, 0); (0, 0); (0, 0); (0, 0); (0, 0); (0, 0); (0, 0); (0, 1); (0, 1); (1, 0); ((-1), 0)].
+Definition ex_plain_vt : list nat := [7; 6; 5; 4; 3; 1; 0; 2]%nat.
+Definition ex_plain_tol : Z := 7205759404.
+
+Definition ex_shift_S : Z := 36028797018963968.
+Definition ex_shift_pts : list pt := [(20829148276588544, 5066549580791808); (6192449487634432, 29836347531329536); (2814749767106560, 15199648742375424); (26458647810801664, 24206847997116416)].
+Definition ex_shift_C : list (tri * box) := [
+  (((0%nat, (0, 0)), (2%nat, (0, 0)), (1%nat, (0, (-1)))), ((-2710109955677076), 20830188600819379, (-6547111804267102), 16993186752229353));
+  (((3%nat, (0, 0)), (0%nat, (0, 0)), (2%nat, (1, 0))), (17055859252498881, 39001060338405684, 2374521260189776, 24319722346096579));
+  (((3%nat, (0, 0)), (2%nat, (0, 0)), (0%nat, (0, 0))), (2691973199423480, 28655637456074941, 3999011577083056, 29962675833734517));
+  (((0%nat, (0, 0)), (1%nat, (1, (-1))), (2%nat, (1, 0))), (20722520450340088, 46511731992715217, (-9482890947733933), 16306320594641196));
+  (((1%nat, (1, 0)), (3%nat, (0, 0)), (2%nat, (1, 0))), (26442838853473187, 44630435505418682, 14577067380161701, 32764664032107196));
+  (((3%nat, (0, 0)), (1%nat, (1, 0)), (0%nat, (0, 1))), (19315637155049199, 43495204456469102, 23148487901747493, 47328055203167396));
+  (((1%nat, (0, 0)), (3%nat, (0, 0)), (0%nat, (0, 1))), (6170367126704166, 28433821846867095, 19405435419384807, 41668890139547736));
+  (((3%nat, (0, 0)), (1%nat, (0, 0)), (2%nat, (0, 0))), (1774679355209282, 27100809821887091, 7562437912472570, 32888568379150379))].
+Definition ex_shift_L : lattice := mkLattice 36028797018963968
+  [(11821949021847552, 23080948090273792); (17826748525008214, 31712847376067244); (29836347531329536, 31712847376067244); (35841147034490196, 23080948090273792); (33964647189752492, 4691249611844267); (28710447624486912, 14824348773427882); (9945449177109846, 4691249611844267); (16700848618165590, 14824348773427882)]
+  [(1, 2)%nat; (2, 3)%nat; (3, 5)%nat; (4, 5)%nat; (1, 0)%nat; (0, 7)%nat; (5, 7)%nat; (6, 7)%nat; (1, 6)%nat; (2, 4)%nat; (3, 0)%nat; (6, 4)%nat]
+  [(0, 0); (0, 0); (0, 0); (0, 0); (0, 0); (0, 0); (0, 0); (0, 0); (0, 1); (0, 1); (1, 0); ((-1), 0)].
+Definition ex_shift_vt : list nat := [7; 6; 5; 4; 3; 1; 0; 2]%nat.
+Definition ex_shift_tol : Z := 7205759404.
+
+Example C03_check_delaunay_nonvacuous :
+  check_delaunay ex_plain_S 2 ex_plain_pts ex_plain_C = true /\
+  check_delaunay ex_shift_S 2 ex_shift_pts ex_shift_C = true.
+Proof. split; vm_compute; reflexivity. Qed.
+Example C03_check_dual_nonvacuous :
+  check_dual ex_plain_S ex_plain_tol false ex_plain_pts ex_plain_C ex_plain_L ex_plain_vt = true /\
+  check_dual ex_shift_S ex_shift_tol true ex_shift_pts ex_shift_C ex_shift_L ex_shift_vt = true.
+Proof. split; vm_compute; reflexivity. Qed.
